@@ -16,8 +16,10 @@ ID = 'C12'
 LEVEL = 'exploration'
 RULE = ('families: hit = loss-free honest network of N in {2..40} nodes joined through a bootstrap node in a seeded order with per-datagram '
         'delay/reorder/duplication, then announcements from random nodes checked from every other node, multi-announcer blobs (M > K), '
-        'pages = focused sweep: one storer holding n = 1..100 records, one searcher; expiry = announce, 24 h - 1 s, 24 h + 1 s of virtual time; '
-        'fault = loss in {0.1,0.3,0.6}, dead subset, hostile subset from a 13-entry catalogue, node and value lookups from honest nodes. '
+        'pages = focused sweep: one storer holding n = 1..100 records, one searcher, plus a lookup during which n/2 further records reach the storer '
+        '(one between any two datagrams); expiry = announce, 24 h - 1 s, 24 h + 1 s of virtual time; stale = N >= 10: blob announced by one of its K '
+        'closest nodes, 24 h + 1 s later by a far node, looked up from every node incl. the one left with only the expired record; '
+        'fault = loss in {0.1,0.3,0.6}, dead subset, hostile subset from a 14-entry catalogue, node and value lookups from honest nodes. '
         'distinct = hash(family, N, delay class, fault mix, hostile kinds, lookup kind); non-trivial = everything except N=2 zero-delay hits')
 ASSUMPTIONS = ['datagram network fully simulated (no sockets); one-way delay <= rpc_timeout/2 - eps in hit scenarios (longer is indistinguishable from loss)',
                'virtual clock: all deadlines in virtual seconds; wall-clock watchdog => inconclusive',
@@ -26,11 +28,12 @@ ASSUMPTIONS = ['datagram network fully simulated (no sockets); one-way delay <= 
 REQUIRED_HITS = ['H1.lookup_found_announcer', 'H2.checked', 'H3.before_expiry_found', 'H3.after_expiry_gone', 'H3.renewed_found_after_first_expiry', 'H4.multi_announcer_all_found',
                  'H4.page_sweep_checked', 'T1.lookup_terminated', 'T1.with_loss', 'T1.with_dead', 'T1.with_hostile', 'T2.node_results_checked',
                  'T2.value_results_checked', 'H4.page_sweep_checked_searcher_is_announcer', 'H4.multi_announcer_all_found_by_an_announcer', 'net.duplicates_delivered', 'net.reordered', 'hostile.garbage', 'hostile.endless_pages',
-                 'hostile.reserved_ips', 'hostile.own_id_contacts', 'hostile.bad_compact', 'size.2', 'size.40']
+                 'hostile.reserved_ips', 'hostile.own_id_contacts', 'hostile.bad_compact', 'size.2', 'size.40',
+                 'H3.holder_of_expired_record_found_fresh_announcer', 'T1.paging_while_records_arrive', 'hostile.repeated_page']
 K, ALPHA, RPC = 8, 5, 5.0
 MAX_PROBES = 3000      # no honest or merely faulty network of <= 40 nodes needs more probes for one lookup
 HOSTILE = ['garbage', 'wrong_rpc_id', 'contacts_wrong_shape', 'own_id_contacts', 'reserved_ips', 'bad_ports', 'oversized', 'bad_compact',
-           'missing_token', 'endless_pages', 'fake_closer_contacts', 'impersonate_key', 'fake_id_real_addr']
+           'missing_token', 'endless_pages', 'fake_closer_contacts', 'impersonate_key', 'fake_id_real_addr', 'repeated_page']
 
 
 def plan(tier):
@@ -47,6 +50,9 @@ def gen_cases(rng, tier, shard, nshards):
                   'hostile': [HOSTILE[(i * 3 + shard + j) % len(HOSTILE)] for j in range(rng.choice([1, 2, 3]))],
                   'loss': rng.choice([0, 0, 0.1, 0.3, 0.6]), 'dead': rng.choice([0, 0, 1, 3])} for i in range(20 if q else 600)])
     fams.append([{'fam': 'expiry', 'seed': rng.getrandbits(48), 'n': rng.choice([3, 4, 6] if q else [4, 6, 9])} for _ in range((1 if shard < 6 else 0) if q else 6)])
+    # (drawn after the older families so that their descriptors stay what they were for a given seed)
+    fams.append([{'fam': 'stale', 'seed': rng.getrandbits(48), 'n': 10 if q else rng.choice([10, 12, 16]), 'blobs': 6}
+                 for _ in range((1 if 8 <= shard < 10 else 0) if q else 3)])
     while any(fams):
         for f in fams:
             if f:
@@ -223,6 +229,10 @@ def make_hostile(kind, r, my_id, net, real_addrs, key_hint):
             return [reply(rpc_id, {b'contacts': honest_contacts})]
         if kind == 'endless_pages':
             return [reply(rpc_id, {b'token': b't' * 48, b'contacts': [], key: [fresh_compact() for _ in range(K)], b'p': 2 ** 40})]
+        if kind == 'repeated_page':
+            # ignores the page argument: the same full page of well-formed records again and again, two more pages promised
+            return [reply(rpc_id, {b'token': b't' * 48, b'contacts': [], b'p': 3,
+                                   key: [bytes([23, 77, 0, i + 1]) + (3333).to_bytes(2, 'big') + hashlib.sha384(b'rp%d' % i).digest() for i in range(K)]})]
         return [reply(rpc_id, {b'token': b't' * 48, b'contacts': res})]
     return handler
 
@@ -466,6 +476,47 @@ async def _pages(rec, case, loop):
                 rec.violation('C12/H4/paging-loses-records/searcher-is-an-announcer',
                               f'one storing node holds {n} announcers for a blob plus the searching node\'s own announcement, the lookup returned '
                               f'{len(got & want)} of the {n} others ({probes} probes)', {'n': n, 'returned': len(got & want), 'probes': probes})
+            # records ARRIVING WHILE a lookup pages through them (schedules: an announcement of a further node reaches the storing node
+            # between two page requests).  The storing node hands out pages of a shuffled record list, every new record changes the
+            # permutation, so the next page overlaps the previous ones.  One-way delay 0.05 s, one record stored in the middle between any
+            # two consecutive datagrams of the lookup.  Judged: the racing lookup terminates (T1) and yields only records the storer was
+            # given (T2); how many of the records present at its start it returns is logged only (the statement promises "all of them" for
+            # the peers that hold the blob, not for a set that changes under the lookup); a lookup after the last arrival gets all n (H4).
+            key = hashlib.sha384(b'race%d' % n).digest()
+            peers = [make_kademlia_peer(hashlib.sha384(b'rann%d-%d' % (n, i)).digest(), pub_ip(40000 + n * 128 + i), 4444, 3333) for i in range(n)]
+            late = n // 2
+            for p in peers[:n - late]:
+                storer.protocol.data_store.add_peer_to_blob(p, key)
+
+            async def arrivals():
+                await asyncio.sleep(0.025)
+                for p in peers[n - late:]:
+                    storer.protocol.data_store.add_peer_to_blob(p, key)
+                    await asyncio.sleep(0.05)
+            net.delay = (0.05, 0.05)
+            arriving = loop.create_task(arrivals())
+            found, done, probes, dt, _ = await value_lookup(loop, searcher, key)
+            await arriving
+            net.delay = (0.0, 0.0)
+            if not done:
+                rec.violation('C12/T1/lookup-did-not-terminate/records-arrive-during-paging',
+                              f'one storing node holds {n - late} announcers for a blob and receives {late} more, one between any two datagrams of a running '
+                              f'lookup: the lookup was still running after {dt:.0f} virtual s / {probes} probes (honest loss-free network of 2)',
+                              {'n': n, 'present_at_start': n - late, 'arriving': late, 'probes': probes})
+                return
+            rec.hit('T1.paging_while_records_arrive')
+            got = {p.address for p in found}
+            if got - {p.address for p in peers}:
+                rec.violation('C12/T2/value-lookup-yielded-peer-nobody-announced', f'lookup racing {late} arriving records yielded {len(got)} peers of which '
+                              f'{len(got - {p.address for p in peers})} were never stored', {'n': n})
+            if {p.address for p in peers[:n - late]} - got:
+                rec.log('pages.racing_lookup_missed_records_present_at_its_start')
+            found, done, probes, dt, _ = await value_lookup(loop, searcher, key)
+            got = {p.address for p in found}
+            if {p.address for p in peers} - got:
+                rec.violation('C12/H4/paging-loses-records/after-records-arrived-during-a-lookup',
+                              f'one storing node holds {n} announcers for a blob, {late} of them arrived during an earlier lookup of the same node: the next lookup '
+                              f'returned {len(got)} of them ({probes} probes)', {'n': n, 'returned': len(got), 'probes': probes})
         rec.exhaustive['page_sweep_%d_%d' % (case['lo'], case['hi'])] = True
     finally:
         stop_all(nodes)
@@ -541,6 +592,75 @@ async def _expiry(rec, case, loop):
         stop_all(nodes)
 
 
+async def _stale(rec, case, loop):
+    """H1/H3 with a history on the SEARCHING node: it stored an earlier announcement of the blob that has meanwhile turned 24 h old (the hourly
+    purge has not run since), and a fresh announcement by another node went to OTHER nodes only.  First announcer = one of the K nodes closest
+    to the hash (its K storing nodes reach rank K + 1), second announcer = a node beyond rank K + 1 (storing nodes = ranks 1..K): the node of
+    rank K + 1 is left with nothing but the expired record.  Every node but the fresh announcer must find it, nobody gets the expired one."""
+    boot.import_lbry()
+    r = random.Random(case['seed'])
+    n = case['n']
+    net = SimNet(loop, r)           # zero delay: lookups take no virtual time, so "24 h + 1 s" is exact
+    net.install()
+    nodes = await build_network(loop, net, r, n)
+    try:
+        ids = [nd.protocol.node_id for nd in nodes]
+        idx = {nid: i for i, nid in enumerate(ids)}
+        plan_ = []
+        for _ in range(case['blobs']):
+            blob = hashlib.sha384(b'stale%d' % r.getrandbits(40)).digest()
+            ranked = sorted(range(n), key=lambda i: xor(ids[i], blob))
+            a1, a2 = ranked[r.randrange(K)], ranked[r.randrange(K + 1, n)]
+            st1 = await nodes[a1].announce_blob(blob.hex())
+            if not st1:
+                rec.violation('C12/H2/announce-stored-nowhere', f'announce_blob stored to 0 nodes (network of {n})', {'n': n})
+                return
+            plan_.append((blob, a1, a2, {idx[s] for s in st1 if s in idx}))
+        t_last = loop.time()
+        await asyncio.sleep(t_last + 86400 + 1 - loop.time())
+        for blob, a1, a2, st1 in plan_:
+            st2 = {idx[s] for s in await nodes[a2].announce_blob(blob.hex()) if s in idx}
+            if not st2:
+                rec.violation('C12/H2/announce-stored-nowhere', f'announce_blob stored to 0 nodes (network of {n})', {'n': n})
+                return
+            # what the harness itself did decides who is a holder of nothing but the expired record; the data store is only read for the log
+            holders = st1 - st2 - {a1, a2}
+            for s_i in range(n):
+                if s_i == a2:
+                    continue
+                found, done, probes, dt, _ = await value_lookup(loop, nodes[s_i], blob)
+                if not done:
+                    rec.violation('C12/T1/lookup-did-not-terminate/honest-network', f'value lookup still running after 2000 virtual s in an honest network of {n}', {'n': n})
+                    return
+                rec.hit('T1.lookup_terminated')
+                if s_i != a1 and any(p.address == pub_ip(a1) for p in found):
+                    rec.violation('C12/H3/announcement-still-returned-after-24h', f'at age 24 h + 1 s node {s_i} still gets the first announcer (network of {n}, '
+                                  f'the blob was announced again by another node)', {'n': n, 'searcher_stored_first': s_i in st1, 'searcher_stored_second': s_i in st2})
+                    return
+                if any(p.address == pub_ip(a2) and p.tcp_port == 3333 for p in found):
+                    rec.hit('H1.lookup_found_announcer')
+                    if s_i in holders:
+                        rec.hit('H3.holder_of_expired_record_found_fresh_announcer')
+                        if not nodes[s_i].protocol.data_store.has_peers_for_blob(blob):
+                            rec.log('stale.expired_record_already_purged')
+                elif s_i in holders:
+                    rec.violation('C12/H3/fresh-announcement-not-found-by-holder-of-expired-record',
+                                  f'network of {n} honest nodes: node {s_i} stored an announcement of the blob 24 h + 1 s ago (expired, hourly purge not yet run); '
+                                  f'a fresh announcement by node {a2} is stored on {len(st2)} other nodes, but the lookup from node {s_i} returned '
+                                  f'{len(found)} peers after {probes} probes', {'n': n, 'stored_second': len(st2), 'returned': len(found), 'probes': probes})
+                    return
+                else:
+                    rec.violation('C12/H1/announcer-not-found',
+                                  f'network of {n} honest nodes: node {s_i} did not find announcer {a2} of a blob stored on {len(st2)} nodes (an earlier announcement '
+                                  f'by node {a1} is 24 h + 1 s old); lookup returned {len(found)} peers after {probes} probes',
+                                  {'n': n, 'stored_to': len(st2), 'probes': probes, 'searcher_stored_first': s_i in st1, 'searcher_stored_second': s_i in st2})
+                    return
+        rec.case(['stale', n], sample={'family': 'stale', 'nodes': n, 'blobs': len(plan_), 'virtual_hours': round((loop.time() - t_last) / 3600, 2),
+                                        'datagrams': net.sent})
+    finally:
+        stop_all(nodes)
+
+
 async def _fault(rec, case, loop):
     boot.import_lbry()
     r = random.Random(case['seed'])
@@ -588,6 +708,8 @@ async def _fault(rec, case, loop):
                 if not done:
                     if kind_l == 'value' and 'endless_pages' in case['hostile']:
                         faults = 'endless-page-liar'
+                    elif kind_l == 'value' and 'repeated_page' in case['hostile']:
+                        faults = 'repeated-page-liar'
                     rec.violation(f'C12/T1/lookup-did-not-terminate/{kind_l}/{faults}',
                                   f'{kind_l} lookup from an honest node still running after 1500 virtual s or {MAX_PROBES} probes ({probes} probes scheduled); network of {n}, '
                                   f'hostile {case["hostile"]}, dead {len(dead_idx)}, loss {case["loss"]}',
@@ -635,7 +757,7 @@ async def _fault(rec, case, loop):
 
 
 def execute(rec, case):
-    fam = {'hit': _hit, 'pages': _pages, 'expiry': _expiry, 'fault': _fault}[case['fam']]
+    fam = {'hit': _hit, 'pages': _pages, 'expiry': _expiry, 'stale': _stale, 'fault': _fault}[case['fam']]
     random.seed(case.get('seed', case.get('lo', 0)))      # routing-table refresh draws ids from the global PRNG
     boot.import_lbry()
     from lbry.dht import peer as _peer
